@@ -21,6 +21,7 @@ NEWLINE_FORMATS = {
 #: A mapping of encodings to possible BOM markers.
 BOMS = {
     'utf-8': (codecs.BOM_UTF8,),
+    'utf-8-sig': (codecs.BOM_UTF8,),
     'utf-16': (codecs.BOM_UTF16_BE, codecs.BOM_UTF16_LE),
     'utf-16-le': (codecs.BOM_UTF16_LE,),
     'utf-16-be': (codecs.BOM_UTF16_BE,),
@@ -185,6 +186,15 @@ def strip_bom(data, encoding):
         bytes:
         The string, without any BOM markers.
     """
+    if encoding is not None:
+        try:
+            # Look up the BOMs by the codec's canonical name, so that
+            # aliases and other spellings ("UTF-16", "utf_16", "u16") are
+            # covered.
+            encoding = codecs.lookup(encoding).name
+        except LookupError:
+            pass
+
     boms = BOMS.get(encoding)
 
     if boms and data.startswith(boms):
